@@ -539,6 +539,11 @@ func (c *Ctx) Finish() int {
 			fmt.Printf("KNOWN-FINDING: property=%s %s [%s, %d cases in this run] %s\n", c.ID, f.ID, class, n, f.What)
 		}
 	}
+	if os.Getenv("VERIF_PRINT_ALL") != "" {
+		for _, v := range c.viol {
+			fmt.Printf("  ALL class=%s detail=%s\n", v.Class, trunc(v.Detail, 200))
+		}
+	}
 	if unknownCount == 0 {
 		return 0
 	}
